@@ -15,6 +15,14 @@ CLAIMED = {
          'deterministic simulation: real server on simulated streams; generated batches pipelined between single calls and next to a live subscription under a seeded scheduler; classifier model + frame accounting ("nothing outside the array") + differential against the same entry sent alone',
          'Seeded search over arrays of 0-8 entries (C01 entry grammar, subscribe/unsubscribe calls, duplicate ids) x batch config Disabled/Limit/Unlimited x transport; the reply must be exactly one array (or the one specified error object, or nothing) with one matching response per call/invalid entry by maximum matching; every other frame on the connection must be explained by non-batch traffic; no entry runs for refused batches; each call entry is re-sent alone and must get the identical response object. Sampling, not enumeration.',
          'A task poll is atomic; classifier trusted; one known finding (subscribe entry in a WebSocket batch).'),
+ 'C04': ('exploration', 'srvsim', 'DESIGN.md §8 C04',
+         'deterministic simulation: real server on simulated streams, remote-controlled subscription handlers, seeded director histories and schedules, injected disconnect/reset/stop; wire order vs. handler-side stamped send log',
+         'Seeded search over histories of subscribe / handler commands / unsubscribe / abrupt disconnect / connection reset / server stop on 1-2 connections with write queues of 1-1024; each notification frame must belong to a subscription accepted on that connection, follow its accept response, and the delivered payloads must be an order-preserving, duplicate-free subsequence of the sends that returned Ok (all of them on a connection that stayed up); rejected/pending subscriptions produce nothing; sends invoked after the close instant fail and are not delivered; at most one closing notification. Sampling, not enumeration.',
+         'A task poll is atomic; close instants are one-sided (successful unsubscribe finish stamp, server-side stream drop stamp).'),
+ 'C06': ('fault_enumeration', 'srvsim', 'DESIGN.md §8 C06',
+         'deterministic simulation with fault injection: same world as C04; exact permit and subscriber-table reference models advanced by stamped events; disconnect/reset/stop swept over every step of fault-free base histories',
+         'Seeded search plus, for base histories, an abrupt disconnect / reset / stop inserted before every step; unsubscribe must answer true exactly when the model has the id active on the same connection (own, foreign-connection, stale, garbage ids; colliding ids across connections); subscribes are refused with -32006 exactly when the per-connection permit model has no free slot and admitted otherwise; is_closed() false while active. Fault positions enumerated per base history; histories and schedules sampled.',
+         'A task poll is atomic; the harness owns all sink clones.'),
  'C05': ('exploration', 'clisim', 'DESIGN.md §8 C05',
          'deterministic simulation: seeded scheduler + scripted peer pushing notifications singly/grouped; exact routing and buffer-occupancy reference model over stamped events',
          'Seeded search over push sequences (live/ended/unknown ids, close and method notifications, grouped into arrays in drawn ways), consumer paces, unsubscribe/drop points and task schedules; each stream is compared with an executable model that is advanced by the stamped events "push handed to the client" and "consumer took an item", so contents, order, end of stream, close reason and the number of unsubscribe requests on the wire are decided exactly for each explored run. Sampling, not enumeration.',
